@@ -153,12 +153,18 @@ func validOptionalPort(port string) bool {
 	return true
 }
 
+// IsUnsafeMethod reports whether method can change state on the origin, i.e.
+// whether a successful response to it invalidates stored responses (RFC 9111
+// §4.4). Every method is unsafe unless it is registered as safe (RFC 9110
+// §9.2.1 and the IANA HTTP Method Registry); that includes WebDAV write
+// methods and unknown extension tokens.
 func IsUnsafeMethod(method string) bool {
 	switch method {
-	case http.MethodPost, http.MethodPut, http.MethodDelete, http.MethodPatch:
-		return true
-	default:
+	case http.MethodGet, http.MethodHead, http.MethodOptions, http.MethodTrace,
+		"PRI", "PROPFIND", "REPORT", "SEARCH", "QUERY":
 		return false
+	default:
+		return true
 	}
 }
 
